@@ -208,6 +208,15 @@ def normalize_power(case, ctx):
 def long_case(draw, tier="quick"):
     m = draw(st.sampled_from([1023, 1024, 1101, 1500, 2047, 2048, 2049, 2600]))
     os_ = draw(st.sampled_from([1, 1, 1, 2, 3, 5]))
+    if draw(st.integers(0, 3)) == 0:
+        # a small pupil imaged over one period of more than 2^14 oversampled rows
+        m = draw(st.integers(8, 60))
+        os_ = draw(st.sampled_from([1, 2, 4, 5]))
+        Nr = (draw(st.integers(16385, 40000)) // os_ + 1) * os_
+        n = draw(st.integers(2, 3))
+        Nc = (int(np.ceil(n / os_)) + draw(st.integers(0, 2))) * os_
+        return {"m": m, "n": n, "N": [Nr, Nc], "oversample": os_, "axis": draw(st.integers(0, 1)),
+                "seed": draw(st.integers(0, 2**31 - 1)), "power": draw(gen.pos_log(1e-3, 1e3))}
     floor_ = int(np.ceil(m / os_)) * os_
     if draw(st.integers(0, 3)):
         # kernel element count Nr*m aimed between 2^22 and 9e6; Nr a multiple of os of either parity when os is odd
@@ -237,6 +246,7 @@ def long(case, ctx):
     with lentil_call("C05.long.normalize", "normalize_power"):
         amp = lentil.normalize_power(amp, case["power"])
     du = (wl * z * os_ / (dx * N[0]), wl * z * os_ / (dx * N[1]))
+    ctx.tag("output>16384" if max(N) > 16384 else None)
     ctx.tag(f"axis:{case['axis']}", f"os:{os_}", "kernel>4M" if max(N) * m > 2**22 else "kernel<=4M",
             "N_odd" if max(N) % 2 else "N_even")
     ctx.nontrivial_if(True)
